@@ -328,6 +328,46 @@ class Normalizer:
     def methods(self, cls: ast.ClassDef, inline: bool = True, keep=()) -> dict[str, ast.FunctionDef]:
         return {n: self.function(f, cls, inline, keep) for n, f in methods(cls).items()}
 
+    def helper_returns(self, call: ast.Call, cls: ast.ClassDef | None, nested_source: ast.FunctionDef | None = None, keep=()):
+        """For a call of a private helper (any number of `return`s): the returned expressions with the helper's
+        parameters replaced by the call's arguments; None if the callee is not such a helper."""
+        nested = {s.name: s for s in (nested_source.body if nested_source is not None else []) if isinstance(s, ast.FunctionDef)}
+        r = self._resolve(call, cls, nested, set(keep))
+        if r is None:
+            return None
+        h, recv = r
+        a = h.args
+        if a.vararg or a.kwarg or a.kwonlyargs or a.posonlyargs or any(isinstance(x, ast.Starred) for x in call.args) \
+                or any(k.arg is None for k in call.keywords):
+            return None
+        params = [x.arg for x in a.args]
+        names = list(params)
+        argmap: dict[str, ast.expr] = {}
+        if recv is not None and names:
+            argmap[names[0]] = recv
+            names = names[1:]
+        if len(call.args) > len(names):
+            return None
+        for nm, v in zip(names, call.args):
+            argmap[nm] = v
+        for k in call.keywords:
+            if k.arg not in params or k.arg in argmap:
+                return None
+            argmap[k.arg] = k.value
+        for nm, dv in zip(params[len(params) - len(a.defaults):], a.defaults):
+            argmap.setdefault(nm, dv)
+        if set(params) - set(argmap):
+            return None
+        counts = bound_names(h)
+        if any(counts.get(p, 0) > 1 for p in params):
+            return None  # a parameter is re-bound inside the helper
+        rets = [n for n in walk_local(h) if isinstance(n, ast.Return) and n.value is not None]
+        out = []
+        for rt in rets:
+            sub = _Subst(dict(argmap))
+            out.append(sub.visit(_copy.deepcopy(rt.value)))
+        return out
+
     # -- constants ----------------------------------------------------------------------------
     def _constants(self, fn: ast.FunctionDef, cls, outer_bound: set) -> None:
         local = set(bound_names(fn)) | outer_bound
@@ -1567,20 +1607,32 @@ def _r6_kernels(ctx: Ctx, mod, meths, stores, deps) -> set[str]:
              for v in alts(st.value) if isinstance(v, ast.Call) and call_name(v) in ("zeros", "empty", "full")]
     if not zeros:
         raise Undecided(f"{q}: allocation of `{vecname}` not found")
+    def shape_alternatives(e: ast.expr | None, depth: int = 0) -> list[ast.expr]:
+        """A shape given through a local assigned once, or in the arms of an if/else, or as a conditional expression."""
+        if e is None or depth > 4:
+            return [e] if e is not None else []
+        if isinstance(e, ast.IfExp):
+            return shape_alternatives(e.body, depth + 1) + shape_alternatives(e.orelse, depth + 1)
+        if isinstance(e, ast.Name) and e.id not in _params(fn):
+            vals = [a.value for a in stmts_local(fn) if isinstance(a, (ast.Assign, ast.AnnAssign)) and getattr(a, "value", None) is not None
+                    and [u(t) for t in assigned_targets(a)] == [e.id]]
+            if vals:
+                return [y for v in vals for y in shape_alternatives(v, depth + 1)]
+        return [e]
+
     for st, zcall in zeros:
-        shp = zcall.args[0] if zcall.args else kwarg(zcall, "shape")
-        if shp is not None:
-            shp = _resolve_local(fn, shp)
-        while isinstance(shp, ast.BinOp) and isinstance(shp.op, ast.Add):
-            shp = shp.left  # (rows,) + x.shape[1:]
-        first = shp.elts[0] if isinstance(shp, ast.Tuple) and shp.elts else shp
-        fa = _self_attr(first) if first is not None else None
-        if fa is None:
-            raise Undecided(f"{q}: allocation size `{u(zcall)}` is not an attribute of self")
-        ok = fa in rng_size and call_name(zcall) == "zeros"
-        ctx.check("R6", ok, mod, q, st,
-                  f"result of the vector kernel must be a zero array with self.<range size> rows ({sorted(rng_size)}); found {u(zcall)}",
-                  construct=f"_slice_vector alloc: {u(zcall)}")
+        shp0 = zcall.args[0] if zcall.args else kwarg(zcall, "shape")
+        for shp in shape_alternatives(shp0):
+            while isinstance(shp, ast.BinOp) and isinstance(shp.op, ast.Add):
+                shp = shp.left  # (rows,) + x.shape[1:]
+            first = shp.elts[0] if isinstance(shp, ast.Tuple) and shp.elts else shp
+            fa = _self_attr(first) if first is not None else None
+            if fa is None:
+                raise Undecided(f"{q}: allocation size `{u(zcall)}` (shape {u(shp)}) is not an attribute of self")
+            ok = fa in rng_size and call_name(zcall) == "zeros"
+            ctx.check("R6", ok, mod, q, st,
+                      f"result of the vector kernel must be a zero array with self.<range size> rows ({sorted(rng_size)}); found "
+                      f"{u(zcall)} with shape {u(shp)}", construct=f"_slice_vector alloc: {call_name(zcall)}({u(shp)})")
     # matrix kernel: shape = (range_size, A.shape[1])
     fn = meths["_slice_matrix"]
     q = f"{CLS}._slice_matrix"
